@@ -457,7 +457,7 @@ func runC01(r *Report) {
 		if r.Count("R-C01-3") == 0 {
 			var szParam *ssa.Parameter
 			for _, p := range rb.Params {
-				if p.Name() == "bodySize" || (szParam == nil && wireDerived(p) != nil) {
+				if canonParamName(p) == "bodySize" || (szParam == nil && wireDerived(p) != nil) {
 					szParam = p
 				}
 			}
